@@ -127,7 +127,11 @@ def _make_frame(spec, seed):
   if rep % 2 == 1:
     df = df[[nm['geo'], 'rowid', nm['response'], nm['date'], nm['group'],
              nm['period']]]
-    df.index = pd.Index(np.arange(len(df))[::-1] * 2)   # non-default labels
+    if (rep // 2 + n_geos + noisy) % 2 == 0:
+      df.index = pd.Index(np.arange(len(df))[::-1] * 2)   # non-default labels
+    else:
+      # row labels that repeat, as after pd.concat of per-group frames
+      df.index = pd.Index(np.arange(len(df)) % max(2, n_dates))
   kwargs = {}
   if naming != 'default':
     kwargs = dict(key_date=nm['date'], key_geo=nm['geo'],
@@ -145,6 +149,9 @@ def _make_frame(spec, seed):
           'planted_noisy': [[ids[g], k] for g, k in planted],
           'planted_spikes': [[str(days[d]), grp] for d, grp in spikes],
           'unassigned_geo': with_unassigned, 'dropped_rows': drop_rows,
+          'row_labels': ('default' if rep % 2 == 0 else 'reversed-even'
+                         if (rep // 2 + n_geos + noisy) % 2 == 0
+                         else 'repeating'),
           'fit_kwargs': {k: v for k, v in kwargs.items()}}
   return df, nm, kwargs, target, desc
 
